@@ -230,7 +230,9 @@ def _run_one(prop, spec, workdir, idx, env):
     out_path = os.path.join(workdir, 'out%d.json' % idx)
     with open(spec_path, 'w') as f:
         json.dump(spec, f)
-    timeout = spec.get('timeout', 1800)
+    # wall-clock watchdog only (its firing is 'inconclusive', never a verdict): generous, so that a slower or loaded
+    # machine does not turn a long shard into a lost one
+    timeout = spec.get('timeout', 1800) * (4 if spec.get('tier') == 'thorough' else 2)
     cmd = [sys.executable, '-m', 'vmon.core', '--shard', prop, spec_path, out_path]
     t0 = time.time()
     try:
